@@ -29,8 +29,11 @@ TRUSTED = ['hand-written model of the tree edits (lean/TexSoupModel/Edit.lean), 
            'the reference of the oracle (lib_edit.resolve / ref_apply: a string and one splice per step, computed from the '
            'lengths of the texts that precede the target in the current tree) = resolve / refApply of the proofs by inspection']
 ASSUMPTIONS = ['the model driver is the compiled form of the verified definitions',
-               'new material is freshly created for every step (a deep copy of a node parsed elsewhere, or a plain string); '
-               'no expression object is inserted twice',
+               'new material is freshly created for every step (a deep copy of a node parsed at the top level of a snippet, a '
+               'plain string, or - material kind i: - the very node that navigation gives inside an argument / group / '
+               '\\item body of a snippet document parsed for that step, which it shares with that snippet); no expression '
+               'object is inserted twice. A step that edits inside material shared with a snippet legitimately changes the '
+               'snippet (counted: source_inner_edit); every other step must leave the snippet documents as they were',
                'targets are re-acquired by structural path in the tree as it is after the previous steps; an op whose path '
                'does not exist, whose target is a bare string, or that renames/re-arguments something that is not a '
                'command/environment is not applied (harness vocabulary)',
@@ -106,6 +109,14 @@ def _unit_histories(unit):
     if kind == 'random':
         _, seed, n, max_len, aop_share = unit
         return _random_unit_histories(seed, n, max_len, aop_share)
+    if kind == 'transplant':
+        _, seed, n, tail = unit
+        rng = random.Random(seed)
+        out = []
+        for _ in range(n):
+            doc = L.gen_doc(rng)
+            out.append((doc, L.gen_transplant(rng, doc, tail=tail, allow_copy=False)))
+        return out
     return [(d, list(o)) for d, o in unit[1]]
 
 
@@ -123,6 +134,9 @@ def _plan(ctx, rng, oracle=False, scale=1):
     per = 25
     for i in range(0, n, per):
         units.append(('random', rng.getrandbits(32), min(per, n - i), max_len, 0.25 if oracle else 0))
+    nt = ctx.pick(300, 1500) * scale
+    for i in range(0, nt, per):
+        units.append(('transplant', rng.getrandbits(32), min(per, nt - i), ctx.pick(4, 8)))
     return units, depth, n, max_len
 
 
@@ -183,11 +197,14 @@ def correspondence(ctx):
               'ALL histories of length <= %d over lib_edit.alphabet (recomputed on the tree after every step: every non-root '
               'node as target of del / rep (0..2 new items) / ren / args / str, every index 0..len+1 of every container for '
               'ins, app) on the %d documents of lib_edit.BFS_DOCS%s; %d random histories of 1..%d ops (lib_edit.gen_ops: '
-              'del, rep, ins, app, ren, str, args with valid targets, ~10%% refused ops) on lib_edit.gen_doc documents; '
-              'non-trivial = at least two ops'
+              'del, rep, ins, app, ren, str, args with valid targets, ~10%% refused ops; ~12%% of the new nodes are taken '
+              'from inside an argument / group / \\item of a snippet) on lib_edit.gen_doc documents; %d transplant histories '
+              '(lib_edit.gen_transplant without copies: such a node is appended / inserted / put in place of a node, often '
+              'next to a textual twin, and later steps delete / replace it at its new place); the snippet documents must '
+              'stay as they were; non-trivial = at least two ops'
               % (2, len(L.BFS_DOCS),
                  '' if depth == 2 else ' plus, for each history of length 2, sampled continuations of length 3 (500 per first op)',
-                 n, max_len))
+                 n, max_len, ctx.pick(300, 1500)))
     r.exhaustive = True
     return r
 
@@ -202,9 +219,10 @@ def run_history(doc, ops, stats=None):
     ref = str(soup)
     applied = 0
     seen_names = set(QUERY_EXTRA)
+    sources = L.Sources()
     for k, op in enumerate(ops):
         try:
-            P = L.Op(op)
+            P = L.Op(op, soup, sources)
         except Exception:
             continue
         res = L.resolve(soup, P)
@@ -217,6 +235,7 @@ def run_history(doc, ops, stats=None):
         texts = L.frozen_text(before)
         desync = P.kind == 'aop' and _shadow_desync(L.locate(soup, P.path)[1].args)
         exc = None
+        sources.begin(soup, P.kind, P.path)
         try:
             L.perform(soup, P, L.step_variant(k, op))
         except RecursionError:
@@ -225,6 +244,7 @@ def run_history(doc, ops, stats=None):
             exc = e
         applied += 1
         now = str(soup)
+        src_msg = sources.check()
         want = ref if res[0] == 'refuse' else L.ref_apply(ref, res[1])
         if now != want or (exc is not None and res[0] == 'splice'):
             how = ('the reference refuses this edit (%s)' % res[1]) if res[0] == 'refuse' else \
@@ -238,6 +258,8 @@ def run_history(doc, ops, stats=None):
                 k, op_text(op), ' raised %s (%s)' % (type(exc).__name__, str(exc)[:60]) if exc else '', how,
                 want[:160], now[:160]), k)
         ref = want
+        if src_msg:
+            return ('untargeted-changed', 'step %d (%s): %s' % (k, op_text(op), src_msg), k)
         if exc is not None or res[0] == 'refuse':
             if exc is not None:
                 after = L.snapshot(soup)
@@ -257,6 +279,8 @@ def run_history(doc, ops, stats=None):
             return ('view-inconsistent', 'step %d (%s): %s' % (k, op_text(op), msg), k)
     if stats is not None:
         stats['applied_steps'] = stats.get('applied_steps', 0) + applied
+        if sources.excluded:
+            stats['source_inner_edit'] = stats.get('source_inner_edit', 0) + sources.excluded
     return None
 
 
@@ -284,7 +308,7 @@ def op_text(op):
     w = op.split(' ')
 
     def mats(x):
-        return [] if x == '_' else [repr(dec(m[2:])) if m[0] == 's' else 'node(%s)' % dec(m[2:]) for m in x.split(',')]
+        return [] if x == '_' else [L.mat_show(m) for m in x.split(',')]
     try:
         if w[0] == 'del':
             return 'delete node at %s' % w[1]
@@ -381,8 +405,12 @@ def oracle(ctx, seeds, scale):
               'children/descendants of their container and inserted text in its text view. Histories: ALL of length <= 2 over '
               'lib_edit.alphabet on %d tiny documents; %d random histories of 1..%d ops on lib_edit.gen_doc documents '
               '(lib_edit.gen_history: del, rep, ins, app, ren, str, args, 25%% TexArgs operations append/extend/insert/pop/'
-              'remove/reverse/clear/slice/permutation, ~10%% refused ops); non-trivial = at least two ops'
-              % (len(L.BFS_DOCS) if ctx.thorough else 4, n, max_len))
+              'remove/reverse/clear/slice/permutation, ~10%% refused ops); %d transplant histories (lib_edit.gen_transplant '
+              'without copies: a node taken from inside an argument / group / \\item body of a separately parsed snippet is '
+              'appended / inserted / put in place of a node, often next to a textual twin, later steps delete / replace it at '
+              'its new place; after every step the snippet document must be what it was, unless the step edits inside the '
+              'shared node); non-trivial = at least two ops'
+              % (len(L.BFS_DOCS) if ctx.thorough else 4, n, max_len, ctx.pick(300, 1500) * scale))
     r.exhaustive = True
     return r
 
